@@ -43,4 +43,18 @@ if [ "$MODE" = "--replay" ]; then
   exit $?
 fi
 "$SCR/vcheck" -check "$ID" -tier "$MODE" -seed "${VERIF_SEED:-0}" -verif "$VERIF" ${VERIF_WORKERS:+-workers $VERIF_WORKERS} ${VERIF_BUDGET:+-budget $VERIF_BUDGET}
-exit $?
+rc=$?
+# thorough tier of the schedule-exploring checks: a second pass under the race detector (happens-before oracle)
+case "$MODE:$ID" in
+  thorough:C03|thorough:C04|thorough:C13|thorough:C14|thorough:C15|thorough:C17|thorough:C18|thorough:C19)
+    if [ "${VERIF_NORACE:-0}" != 1 ] && [ -z "$RACE" ] && [ $rc != 2 ]; then
+      export CGO_ENABLED=1
+      if (cd "$SCR/src" && go build -trimpath -race -tags verif -o "$SCR/vcheck-race" ./verifh/cmd/vcheck) 2>"$SCR/build-race.log"; then
+        "$SCR/vcheck-race" -check "$ID" -tier thorough -racepass -seed "${VERIF_SEED:-0}" -verif "$VERIF" ${VERIF_WORKERS:+-workers $VERIF_WORKERS}
+        rc2=$?; [ $rc2 -gt $rc ] && rc=$rc2
+      else
+        echo "note: race-detector build not available here; race pass skipped" >&2; tail -3 "$SCR/build-race.log" >&2
+      fi
+    fi;;
+esac
+exit $rc
